@@ -103,6 +103,8 @@ def run(ctx):
     ctx.rule("R17.i", "__setstate__, interpreted abstractly on a saved watcher table in which one watcher is listed under two parameters next to a second watcher: every saved watcher is "
                       "re-created exactly once (the same new object wherever the old one was listed -- batched dispatch tells watchers apart by identity), in the saved order, bound to the copy, "
                       "with a method-caller callback rebuilt for the copy and a foreign callback kept", floor=1)
+    ctx.rule("R17.r", "reduce hooks build new objects: every __reduce__ / __reduce_ex__ of param / numbergen hands the state to its reconstructor (>= 3 elements) or delegates to super(); a "
+                      "by-reference answer `(function, args)` is accepted only under an identity test of self", floor=1)
     ctx.rule("R17.j", "copy-only hooks share nothing: every __deepcopy__ / __copy__ defined in param or numbergen puts into the new object only values that went through copy.deepcopy "
                       "(or constants); on the pinned tree there is none, so deepcopy and pickle both go through __getstate__ / __setstate__ and cannot disagree", floor=1)
     ctx.rule("R17.k", "a copied number generator behaves like the original: numbergen.Hash.__init__ and Hash.__setstate__ (what deepcopy and pickle go through) feed the md5 state the same inputs "
@@ -370,6 +372,7 @@ def run(ctx):
     ctx.require(n_ss >= 2, "fewer than 2 Parameter __setstate__ methods found (%d)" % n_ss)
     from checks.shared import getstate_complete
     getstate_complete(ctx, "R17.l")
+    reduce_hooks_build_new_objects(ctx, "R17.r")
 
     # ---------------------------------------------------------------- R17.j
     hooks_ = [g for g in ctx.repo.all_funcs() if g.name in ("__deepcopy__", "__copy__") and g.cls is not None]
@@ -490,3 +493,33 @@ def run(ctx):
         else:
             ctx.ok("R17.s", anyf, anyf.node, "%s: slotted, with __getstate__ / __setstate__" % cq.rsplit(".", 1)[-1])
     ctx.require(n_s >= 15, "fewer than 15 slotted classes found (%d)" % n_s)
+
+
+def reduce_hooks_build_new_objects(ctx, rule):
+    """Every __reduce__ / __reduce_ex__ defined in param or numbergen: what it returns either delegates to super(), or names
+    a reconstructor together with the STATE to restore (three or more elements), i.e. the copy is a new object filled from
+    the original's state.  A two-element answer `(function, args)` reconstructs "by reference" -- the copy IS whatever the
+    function returns, e.g. a shared global -- and is accepted only under an identity test of self (`self is <the shared
+    object>`): chosen by `==`, any equal-looking private object is replaced by the shared one in its copy."""
+    hooks_ = [g for g in ctx.repo.all_funcs() if g.name in ("__reduce__", "__reduce_ex__") and g.cls is not None]
+    ctx.require(hooks_, "no __reduce__ / __reduce_ex__ found (ParameterizedFunction.__reduce__ is expected)")
+    for g in hooks_:
+        cfg = ctx.facts.cfg(g)
+        selfn = g.params[0]
+        bad = None
+        for n in cfg.live_nodes():
+            if not (n.kind == "stmt" and isinstance(n.ast, ast.Return) and isinstance(n.ast.value, ast.Tuple)):
+                continue
+            if len(n.ast.value.elts) >= 3:
+                continue
+            conds = cfg.conditions(n)
+            by_identity = any(tr is True and isinstance(e, ast.Compare) and isinstance(e.ops[0], ast.Is) and selfn in (norm(e.left), norm(e.comparators[0])) for e, tr in conds)
+            if not by_identity:
+                bad = n
+        if bad is not None:
+            ctx.fail(rule, g, bad, "%s.%s answers `%s` -- a reconstruction by reference (no state handed over) that is not selected by an identity test of self: the copy / unpickled object of a "
+                                   "private object that merely compares equal becomes the shared object (it shows the shared object's state, and changing the copy changes the shared object)" % (
+                                       g.cls.name, g.name, norm(bad.ast.value)[:60]), key="%s::by-reference-without-identity" % g.qualname,
+                     input="t = param.Time(); t(5); c = copy.deepcopy(holder_of(t)) -> the copy's clock is Dynamic.time_fn (time 0), advancing it moves the global clock")
+        else:
+            ctx.ok(rule, g, g.node, "%s.%s hands the state to a reconstructor (or delegates to super())" % (g.cls.name, g.name))
